@@ -240,7 +240,7 @@ class OpGen:
                 return self.random_op(rng, multi)
             op = [9, rng.choice(cand)]
         elif c == 10:
-            cand = [i for i in live if not (r.kind[i] == 3 and i == 0)]
+            cand = list(live)
             if not cand or rng.random() < 0.5:
                 return self.random_op(rng, multi)
             op = [10, rng.choice(cand)]
@@ -297,8 +297,7 @@ class OpGen:
                 ops.append([9, s])
         for x in live:
             ops.append([6, x])
-            if not (r.kind[x] == 3 and x == 0):
-                ops.append([10, x])
+            ops.append([10, x])
             if r.P[x] is None:
                 ops.append([4, x, [[1, "nA"]]]); ops.append([5, x, [[1, "nA"]]]); ops.append([7, x, [[1, "nA"]]])
                 continue
